@@ -279,6 +279,7 @@ def core(ctx, optsets_needed, fields, cross=None, note='', sweep='core', build_m
     by = st.get('by_opts', {})
     ev = sum(by.get(o or 'd', {}).get('cases', 0) for o in want) + ctx.coverage.get('evaluations', 0)
     prev_dist = ctx.coverage.get('input_distribution')
+    prev_tcov = ctx.coverage.get('theorem_coverage_by_option_set')
     ctx.coverage.update({
         'evaluations': ev,
         'programs_compared_T_emit': st.get('programs', 0) + ctx.coverage.get('programs_compared_T_emit', 0),
@@ -291,6 +292,9 @@ def core(ctx, optsets_needed, fields, cross=None, note='', sweep='core', build_m
         'sweep_wall_s': st.get('wall_s'),
         'theorem_hypotheses_on_sweep_grammars': st.get('theorem_hypotheses'),
     })
+    tcov = dict(prev_tcov or {})
+    tcov.update({o or 'd': (st.get('theorem_coverage') or {}).get(o or 'd') for o in want})
+    ctx.coverage['theorem_coverage_by_option_set'] = tcov
     if prev_dist:
         ctx.coverage['input_distribution_' + sweep] = ctx.coverage['input_distribution']
         ctx.coverage['input_distribution'] = prev_dist
@@ -347,7 +351,7 @@ def c06(ctx):
 
 
 def c07(ctx):
-    ctx.proofs(['PegVerif.Props.C07', 'PegVerif.Props.C07Switch'])
+    ctx.proofs(['PegVerif.Props.C07', 'PegVerif.Props.C07Switch', 'PegVerif.Props.C07Inline'])
     sw, by = core(ctx, ['n', 'in'], ['v', 'trace'], cross='opts',
                   note='-noast and -noast -inline parsers; verdict compared with the default parser, trace of inline actions with the spec (reach order, last capture).')
     n1 = by.get('n', {}).get('trace_nonempty', 0) + by.get('in', {}).get('trace_nonempty', 0)
